@@ -80,15 +80,24 @@ macro_rules! range_impl {
             let mut enc: Enc = RangeEncoder::new();
             let mut snaps: Vec<(usize, St)> = Vec::new();
             let mut dec: Option<Dec> = None;
+            // successfully encoded (model index, symbol) pairs, for op 12 (None once the encoder was
+            // replaced through raw parts)
+            let mut encoded_opt: Option<Vec<(usize, i64)>> = Some(Vec::new());
 
             // ---------------- encoder phase
             while !r.done() && dec.is_none() {
                 let op = r.next();
                 match op {
                     1 => {
-                        let m = &models[r.us()];
+                        let mi = r.us();
+                        let m = &models[mi];
                         let sym = r.next() as i64;
                         let res = with_p!($Pr, m.p, $plist, |tm| enc.encode_symbol(sym, tm), &m.t);
+                        if res.is_ok() {
+                            if let Some(v) = encoded_opt.as_mut() {
+                                v.push((mi, sym));
+                            }
+                        }
                         out.push(match res {
                             Ok(()) => 0,
                             Err(CoderError::Frontend(_)) => ERR_IMPOSSIBLE,
@@ -141,6 +150,7 @@ macro_rules! range_impl {
                         out.push(0);
                     }
                     8 => {
+                        encoded_opt = None;
                         let bulk: Vec<$W> = r.list().into_iter().map(|x| x as $W).collect();
                         let lower = r.next() as $S;
                         let range = r.next() as $S;
@@ -158,10 +168,28 @@ macro_rules! range_impl {
                             Err(()) => out.push(ERR_STATE),
                         }
                     }
-                    9 => {
+                    9 | 11 | 12 => {
+                        // 9: into_compressed;  11: Vec::from(encoder);  12: the same message encoded
+                        // onto a Cursor sink over a stale all-ones buffer (a sink whose maybe_full()
+                        // is the trait default); all three must yield the same sealed words
                         let sfx: Vec<$W> = r.list().into_iter().map(|x| x as $W).collect();
                         let e = core::mem::replace(&mut enc, RangeEncoder::new());
-                        let mut ws: Vec<$W> = e.into_compressed().unwrap();
+                        let mut ws: Vec<$W> = if op == 9 || (op == 12 && encoded_opt.is_none()) {
+                            e.into_compressed().unwrap()
+                        } else if op == 11 {
+                            e.into()
+                        } else {
+                            let encoded = encoded_opt.clone().unwrap();
+                            let reference = e.into_compressed().unwrap();
+                            let cursor = Cursor::new_at_write_beginning(vec![<$W>::MAX; reference.len() + 8]);
+                            let mut e2 = RangeEncoder::<$W, $S, Cursor<$W, Vec<$W>>>::with_backend(cursor);
+                            for &(mi, sym) in &encoded {
+                                let m = &models[mi];
+                                with_p!($Pr, m.p, $plist, |tm| e2.encode_symbol(sym, tm), &m.t).unwrap();
+                            }
+                            let (buf, pos) = e2.into_compressed().unwrap().into_buf_and_pos();
+                            buf[..pos].to_vec()
+                        };
                         out.push(ws.len() as Int);
                         out.extend(ws.iter().map(|&w| w as Int));
                         ws.extend(sfx);
@@ -231,6 +259,19 @@ macro_rules! range_impl {
                             Ok(()) => 0,
                             Err(()) => ERR_SEEK,
                         });
+                    }
+                    27 => {
+                        // like 22, but the snapshot is stored as plain numbers and the state is
+                        // rebuilt with RangeCoderState::new (the only public way to do so)
+                        let i = r.us();
+                        let (pos, st) = snaps[i];
+                        match St::new(st.lower(), st.range().get()) {
+                            Ok(st2) => out.push(match d.seek((pos, st2)) {
+                                Ok(()) => 0,
+                                Err(()) => ERR_SEEK,
+                            }),
+                            Err(()) => out.push(ERR_STATE),
+                        }
                     }
                     23 => dec_raw(&d, out),
                     24 => {
